@@ -509,12 +509,75 @@ let c08 = function
     end
   | _ -> "FAIL malformed case"
 
+(* C07: reference lookahead families from the verified FIRST/FOLLOW reference *)
+let la_families (g : Cfg.cfg) (kmax : int) : (int * (BinNums.coq_Z * BinNums.coq_N list list) list * int) list option =
+  (* per non-terminal a: (a, family, decided k); None if some non-terminal is not decidable within kmax *)
+  match FirstFollow.decide_ref ff_fuel (nat_of_int kmax) g with
+  | None -> None
+  | Some rows ->
+    let tables = Hashtbl.create 8 in
+    let get_tables k =
+      (match Hashtbl.find_opt tables k with
+       | Some t -> t
+       | None ->
+         let t = (match FirstFollow.first_ref ff_fuel (nat_of_int k) g with
+             | Some ft -> (match FirstFollow.follow_ref ff_fuel (nat_of_int k) g ft with Some wt -> Some (ft, wt) | None -> None)
+             | None -> None) in
+         Hashtbl.replace tables k t; t) in
+    let res = Stdlib.List.map (fun (a, r) ->
+        let pidx = Stdlib.List.filteri (fun _ _ -> true) (Stdlib.List.mapi (fun i p -> (i, p)) g.Cfg.prods)
+                   |> Stdlib.List.filter (fun (_, p) -> p.Cfg.lhs = a) |> Stdlib.List.map fst in
+        match r with
+        | None -> None
+        | Some k ->
+          let k' = int_of_nat k in
+          if k' = 0 then Some (int_of_n a, Stdlib.List.map (fun i -> (z_of_int i, [[]])) pidx, 0)
+          else (match get_tables k' with
+              | None -> None
+              | Some (ft, wt) ->
+                let sets = FirstFollow.la_sets k g ft wt a in
+                Some (int_of_n a, Stdlib.List.map2 (fun i s -> (z_of_int i, s)) pidx sets, k'))) rows in
+    if Stdlib.List.exists (fun x -> x = None) res then None
+    else Some (Stdlib.List.filter_map (fun x -> x) res)
+
+let c07 = function
+  | [_; _; L [A "panic"]] -> "FAIL key=panic the LL(k) pipeline panicked"
+  | [_; _; L [A "rejected-by-checks"]] -> "OK 0 rejected-by-checks"
+  | [_; _; L [A "export-error"]] -> "FAIL key=export-error export model generation failed"
+  | [_; kk; L [A "not-ll-k"]] -> "OK 0 not-ll-k"
+  | [_; kk; L [A "built"; g2; L autos]] ->
+    let g = cfg_of_sx g2 in
+    (match la_families g (int_of_sx kk) with
+     | None -> "FAIL key=accepted-but-not-sll parol accepted the grammar but the verified reference finds a non-terminal not strong-LL(k) within K"
+     | Some fams ->
+       let alphabet = cfg_terminals g in
+       let problems = ref [] in
+       let big = ref false in
+       Stdlib.List.iter (fun au ->
+           match au with
+           | L [nt; p0; k; L trs] ->
+             let d = dfa_of_sx (L [p0; k; L trs]) in
+             let a = int_of_sx nt in
+             (match Stdlib.List.find_opt (fun (b, _, _) -> b = a) fams with
+              | None -> problems := (Printf.sprintf "no-reference-for-nt-%d" a) :: !problems
+              | Some (_, fam, kref) ->
+                if not (LaTrie.la_dfa_check d fam alphabet) then problems := (Printf.sprintf "automaton-language nt %d" a) :: !problems
+                else if not (LaTrie.la_depth_check d fam) then problems := (Printf.sprintf "automaton-depth nt %d (k %d, longest lookahead string differs)" a (int_of_sx k)) :: !problems
+                else if Stdlib.List.length trs >= 3 then big := true)
+           | _ -> problems := "malformed-automaton" :: !problems) autos;
+       if Stdlib.List.length autos <> Stdlib.List.length fams then problems := "automaton-count" :: !problems;
+       (match Stdlib.List.rev !problems with
+        | [] -> Printf.sprintf "OK %d automata-exact" (if !big then 1 else 0)
+        | p :: _ -> Printf.sprintf "FAIL key=%s the generated automaton differs from the lookahead sets: %s" (Stdlib.List.hd (Stdlib.String.split_on_char ' ' p)) p))
+  | _ -> "FAIL malformed case"
+
 let dispatch (sx : Sexp.t) : string =
   match sx with
   | L (A "lev" :: args) -> c31 args
   | L (A "eval" :: args) -> c08 args
   | L (A "aug" :: args) -> c12 args
   | L (A "wf" :: args) -> c11 args
+  | L (A "la" :: args) -> c07 args
   | L (A "ktseq" :: args) -> c32 args
   | L (A "lf" :: args) -> c10 args
   | L (A "blk" :: args) -> c15_block args
